@@ -7,6 +7,7 @@ import (
 
 	"golang.org/x/tools/go/ssa"
 
+	"verif/internal/engine/b"
 	"verif/internal/pt"
 	"verif/internal/ssau"
 )
@@ -61,6 +62,61 @@ func dumpPaths(spec string, cfgName string) {
 		}
 		for _, u := range pa.Unrec {
 			fmt.Printf("   UNREC %s\n", u)
+		}
+	}
+}
+
+// dumpRegions prints, for every loop of fn, the one-iteration paths (debug aid).
+func dumpRegions(spec, cfgName string) {
+	c := newCtx("quick")
+	p, rl, err := c.Roles(cfgName)
+	if err != nil {
+		fmt.Println(err)
+		os.Exit(2)
+	}
+	spec = strings.TrimPrefix(spec, ":")
+	var fn *ssa.Function
+	for _, f := range ssau.AllFuncs(p) {
+		if ssau.QName(f) == spec {
+			fn = f
+		}
+	}
+	if fn == nil {
+		fmt.Println("not found")
+		os.Exit(2)
+	}
+	loops := b.Loops(fn)
+	m := rootModel(rl)
+	for _, l := range loops {
+		par := -1
+		if l.Parent != nil {
+			par = l.Parent.Header.Index
+		}
+		fmt.Printf("===== loop header=%d blocks=%d parent=%d inner=%d\n", l.Header.Index, len(l.Blocks), par, len(l.Inner))
+		if len(l.Inner) > 0 {
+			continue
+		}
+		ll := l
+		paths, err := pt.EnumerateRegion(fn, m, l.Header, func(bb *ssa.BasicBlock) bool { return bb == ll.Header || !ll.Blocks[bb] })
+		if err != nil {
+			fmt.Println("ERR", err)
+		}
+		for i, pa := range paths {
+			pt.NormalisePath(pa)
+			stop := -1
+			if pa.StopAt != nil {
+				stop = pa.StopAt.Index
+			}
+			fmt.Printf("--- path %d: %s stop=%d %v\n", i, pa.Kind, stop, pa.Results)
+			for _, a := range pa.Atoms {
+				fmt.Printf("   atom %-5v %s\n", a.Val, a.Key)
+			}
+			for _, e := range pa.Events {
+				fmt.Printf("   ev %s args=%v addrs=%v\n", e.Callee, e.Args, e.Addrs)
+			}
+			for _, u := range pa.Unrec {
+				fmt.Printf("   UNREC %s\n", u)
+			}
 		}
 	}
 }
